@@ -309,6 +309,51 @@ def r5(ctx: Context) -> None:
         ctx.analysed["result_wait_loop_observes_stop_flag"] = obs
 
 
+def r6(ctx: Context) -> None:
+    """stop_runner_loop runs wherever the stop request arrives: in a signal handler on top of the loop thread's current
+    frame, or in another thread.  What it calls must neither touch the loop's registries nor throw into the loop."""
+    from ..flow import mem_store_writes
+
+    ctx.rule("R6", "the stop REQUEST is passive: the diagnostics hook (_log_shutdown) of every runner writes no runner attribute, directly or through the self-methods it calls (the registry of running work is maintained by the loop thread alone - a concurrent rebuild drops a thread registered in between, and _on_stop then neither kills nor re-routes its invocation); and no executable runner's _log_shutdown / _on_stop_runner_loop raises (an exception thrown from the signal handler unwinds the loop thread from an arbitrary point - after an invocation was claimed, before it was registered)")
+    base = ctx.repo.cls("BaseRunner")
+
+    def closure(c, name: str, depth: int = 3) -> list[FuncInfo]:
+        out: list[FuncInfo] = []
+        seen: set[str] = set()
+        work = [(name, 0)]
+        while work:
+            n_, d_ = work.pop()
+            if n_ in seen:
+                continue
+            seen.add(n_)
+            m = c.find_method(n_)
+            if m is None:
+                continue
+            out.append(m)
+            if d_ < depth:
+                for cc in calls_in(m.node):
+                    if isinstance(cc.func, ast.Attribute) and isinstance(cc.func.value, ast.Name) and cc.func.value.id == "self":
+                        work.append((cc.func.attr, d_ + 1))
+        return out
+
+    n = 0
+    for c in [base] + base.all_subclasses():
+        if not c.module.name.startswith("pynenc."):
+            continue
+        executable = not any(isinstance(x, ast.Raise) and "RunnerNotExecutableError" in ast.unparse(x) for m_ in [c.find_method("runner_loop_iteration")] if m_ is not None for x in walk_no_nested(m_.node))
+        n += 1
+        ws = [(m, w) for m in closure(c, "_log_shutdown") for w in mem_store_writes(m.node)]
+        ctx.add("R6", f"{c.qualname}::_log_shutdown::writes-nothing", not ws, ws[0][0].loc(ws[0][1].node) if ws else c.module.relpath, "" if not ws else f"{ws[0][0].name} changes self.{ws[0][1].attr} ({ws[0][1].how}) on the stop-request path: the request can arrive in another thread (or on top of the loop's own frame) while the loop maintains that attribute - a thread started and registered in between is lost from the registry, its invocation stays RUNNING with no runner behind it")
+        if executable:
+            for hook in ("_log_shutdown", "_on_stop_runner_loop"):
+                m = c.methods.get(hook)
+                if m is None:
+                    continue
+                rs = [x for x in walk_no_nested(m.node) if isinstance(x, ast.Raise)]
+                ctx.add("R6", f"{m.qualname}::does-not-raise", not rs, m.loc(rs[0]) if rs else m.loc(), "" if not rs else f"`{ast.unparse(rs[0])[:50]}` in a hook of stop_runner_loop: for a real signal it is thrown inside whatever the loop thread was doing - between claiming an invocation (PENDING) and registering its thread, say - and that invocation is in nobody's registry when _on_stop runs")
+    ctx.floor("R6", "runner classes", n, 5)
+
+
 def run(ctx: Context) -> None:
     sm = extract(ctx.repo)
     r1(ctx)
@@ -316,6 +361,7 @@ def run(ctx: Context) -> None:
     r3(ctx, sm)
     r4(ctx, sm)
     r5(ctx)
+    r6(ctx)
     ctx.exhaustive = True
     ctx.not_decided += [
         "'the stop completes' as a liveness statement beyond R5",
